@@ -6,13 +6,20 @@ A  round trip     from_scope_string(loc.scope_string) is the same location (7 at
 B  containment    the sdc.ctxt.loc scope mk_scopes publishes for a ProviderMdib whose location was set with mdib.xtra.set_location
                   is inside the location, inside all 2^6 generalisations, and inside no location differing in a specified element
 C  totality       filter_services_inside / _scope_string_matches return a bool / list for ANY scope string
+D  variants       (round 4) every other way a location gets into a ProviderMdib: several MDS / location context descriptors with
+                  location_context_descriptor_handle, validators, states that are already in the MDIB file (arbitrary identification roots,
+                  several identifications, not associated states next to the associated one), from_sdc_location + add_state, entity.new_state,
+                  LocationDetail None - judged as an equivalence: inside(F)  <=>  F encloses one of the associated locations
+E  wire           (round 4) real SdcProvider.set_location / publish -> scopes factory -> real WSDiscovery Hello / ProbeMatches datagram -> real
+                  consumer-side WSDiscovery -> search_sdc_device_services_in_location / filter_services_inside (vf/c16_wire.py), locations
+                  updated several times, publish_now=False, foreign devices with hostile scopes in the same table
 """
 from __future__ import annotations
 
 import traceback
 import warnings
 
-from .. import core, urigen
+from .. import c16_wire, core, urigen
 
 MODULE = 'vf.props.c16'
 ELEMENTS = ('fac', 'bldng', 'flr', 'poc', 'rm', 'bed')
@@ -83,6 +90,15 @@ def _random_values(rng, pool, mask=None):
     return {e: urigen.pick_value(rng, pool) for i, e in enumerate(ELEMENTS) if mask >> i & 1}, mask
 
 
+def _random_values_xml(rng, pool, mask=None):
+    """like _random_values, but every value can be written to an XML document: a running provider reports its states as XML"""
+    values, mask = _random_values(rng, pool, mask)
+    for e in values:
+        while not c16_wire.xml_ok(values[e]):
+            values[e] = urigen.pick_value(rng, pool)
+    return values, mask
+
+
 # =============================================================================================
 # A  round trip
 # =============================================================================================
@@ -147,6 +163,27 @@ def w_roundtrip(ctx: core.Ctx, arg):
                         {'elements': values, 'root': root, 'scope_string': scope, 'parsed_back': dict(zip(ELEMENTS + ('root',), _attrs(back)))})
             continue
         ctx.count('roundtrip.identical')
+        if case % 5 == 1:  # the location is its CURRENT attribute values: built by assignment, changed after its scope string was read once
+            try:
+                built = SdcLocation()
+                for e, v in values.items():
+                    setattr(built, e, v)
+                built.root = root  # (deprecated) setter
+                other = {e: urigen.pick_value(rng, pool) for e in ELEMENTS if rng.random() < 0.5}
+                changed = _mk_loc(values, root)
+                changed.scope_string  # noqa: B018  read once before the change
+                for e in ELEMENTS:
+                    setattr(changed, e, other.get(e))
+                ctx.count('roundtrip.after_attribute_change')
+                for name, obj, want in (('assignment', built, _attrs(loc)), ('change', changed, tuple(other.get(e) for e in ELEMENTS) + (root,))):
+                    got = _attrs(SdcLocation.from_scope_string(obj.scope_string))
+                    if got != want:
+                        ctx.witness(f'roundtrip.differs.after_{name}', f'the scope string of a location whose attributes were set by {name} does not '
+                                    'parse back to its current attribute values', {'expected': dict(zip(ELEMENTS + ('root',), want)),
+                                                                                   'parsed_back': dict(zip(ELEMENTS + ('root',), got))})
+            except Exception as ex:  # noqa: BLE001
+                ctx.witness(f'roundtrip.raises.{rkind}', f'scope string / parse of a location built by assignment raised {type(ex).__name__}: {ex}',
+                            {'elements': values, 'root': root})
         if case % 3 == 0:  # what the application does with one parse result must not influence the next parse of the same string
             expected = _attrs(back)
             for e in ELEMENTS:
@@ -246,6 +283,19 @@ def w_contain(ctx: core.Ctx, arg):
                 continue
         scope_text = loc_scopes[0]
         svc = Service(None, scopes, ['http://10.0.0.1/x'], 'urn:uuid:dev', '1')
+        # (0) read back, the published scope is the associated location: a parsed element that differs from the associated one would put the
+        #     device inside a location that differs in that element (and outside its own); an element that was not set must not appear
+        try:
+            from sdc11073.location import SdcLocation
+            parsed = SdcLocation.from_scope_string(scope_text)
+            ctx.count('contain.published_parsed')
+            want = tuple(values.get(e) for e in ELEMENTS) + (DEFAULT_ROOT,)
+            if _attrs(parsed) != want:
+                ctx.witness('contain.published_parse_differs', 'the published location scope, parsed back, is not the associated location',
+                            {'elements': values, 'scope': scope_text, 'parsed': dict(zip(ELEMENTS + ('root',), _attrs(parsed))), 'how': how})
+        except Exception as ex:  # noqa: BLE001
+            ctx.witness('contain.raises.' + _classify_raise(ex), f'from_scope_string raised {type(ex).__name__}: {ex} on a scope published by mk_scopes',
+                        {'scope': scope_text})
         # (1) inside itself and inside every generalisation (every subset of elements set to None) - 2^6
         for gmask in range(64):
             g = _mk_loc({e: values[e] for i, e in enumerate(ELEMENTS) if gmask >> i & 1 and e in values})
@@ -344,6 +394,52 @@ def _check_total(ctx, filt, scope_texts, origin):
     return ok
 
 
+def _service_shapes(ctx, filters, rng, pool):
+    """the list handed to the filter is what a discovery produced: services without Scopes element (scopes None), with an empty one, with a
+    MatchBy attribute, without anything; handed over as list / tuple / generator / dict view; empty; long."""
+    from sdc11073.wsdiscovery.service import Service
+    from sdc11073.xml_types.wsd_types import ScopesType
+    for filt in filters:
+        good = Service(None, ScopesType(filt.scope_string), [], 'urn:uuid:good', '1')
+        foreign = []
+        foreign.append(('scopes_none', Service(None, None, None, 'urn:uuid:n', '1')))
+        foreign.append(('scopes_empty', Service([], ScopesType(), [], '', 0)))
+        foreign.append(('match_by', Service(None, ScopesType('http://[::1', match_by='http://docs.oasis-open.org/ws-dd/ns/discovery/2009/01/strcmp0'), [], 'e', '1')))
+        many = ScopesType()
+        many.text.extend(urigen.foreign_scope(rng, pool)[0] for _ in range(300))
+        foreign.append(('many_scopes', Service(None, many, [], 'urn:uuid:m', '1')))
+        dup = ScopesType()
+        dup.text.extend(['sdc.ctxt.loc:/x', 'sdc.ctxt.loc:/x', '', ''])
+        foreign.append(('duplicate_scopes', Service(None, dup, [], 'urn:uuid:d', '1')))
+        services = [good] + [f for _, f in foreign] + [good]
+        containers = {'list': lambda: list(services), 'tuple': lambda: tuple(services), 'generator': lambda: (x for x in services),
+                      'iterator': lambda: iter(services), 'dict_values': lambda: {id(x): x for x in services[1:]}.values(),
+                      'empty_list': list, 'empty_generator': lambda: iter(()), 'long_list': lambda: services * 200}
+        for cname, mk in containers.items():
+            ctx.count('filter.service_shapes')
+            ctx.case(('shape', cname))
+            try:
+                res = filt.filter_services_inside(mk())
+            except Exception as ex:  # noqa: BLE001
+                ctx.witness(f'filter.raises.{_classify_raise(ex)}', f'filter_services_inside raised {type(ex).__name__}: {ex} for a service list of shape '
+                            f'{cname}', {'container': cname, 'services': [n for n, _ in foreign], 'raised_in': _innermost(ex)})
+                continue
+            if not isinstance(res, list):
+                ctx.witness('filter.not_a_list', 'filter_services_inside did not return a list', {'container': cname, 'result': repr(res)[:200]})
+                continue
+            want = {'empty_list': 0, 'empty_generator': 0, 'dict_values': 1, 'long_list': 400}.get(cname, 2)
+            if [x for x in res if x is good] != [good] * want:
+                ctx.witness('filter.lost_good_service', 'the services inside the location are not exactly the ones returned when the list contains '
+                            'services without / with empty / with unusual Scopes', {'container': cname, 'returned': len(res), 'expected': want})
+        for name, f in foreign[:3]:  # these three publish nothing that could be a location
+            try:
+                if filt.filter_services_inside([f]):
+                    ctx.witness('filter.inside_without_location_scope', 'a service that publishes no location scope at all is reported inside a location',
+                                {'service': name})
+            except Exception as ex:  # noqa: BLE001
+                ctx.witness(f'filter.raises.{_classify_raise(ex)}', f'filter_services_inside raised {type(ex).__name__}: {ex}', {'service': name})
+
+
 def w_foreign(ctx: core.Ctx, arg):
     warnings.simplefilter('ignore')
     rng = ctx.rng('foreign', arg['i'])
@@ -351,6 +447,8 @@ def w_foreign(ctx: core.Ctx, arg):
     filters = [_mk_loc({'fac': 'HOSP1', 'poc': 'CU1', 'bed': 'Bed42'}), _mk_loc({}), _mk_loc({'fac': 'a'}, 'root'),
                _mk_loc({e: 'x/y' for e in ELEMENTS})]
     directed = list(urigen.RAW) if arg['i'] == 0 else []
+    if arg['i'] == 0:
+        _service_shapes(ctx, filters, rng, pool)
     for case in range(arg['n']):
         if case < len(directed):
             s, shape = directed[case], ('raw', directed[case][:40])
@@ -409,10 +507,533 @@ def w_own_scopes(ctx: core.Ctx, arg):
             ctx.sample({'kind': 'scopes emitted by mk_scopes', 'identifications': plan, 'scopes': scopes, 'tolerated': ok})
 
 
+# =============================================================================================
+# D / E  equivalence judge:  inside(F)  <=>  F encloses one of the published (associated) locations
+# =============================================================================================
+def _encloses(froot, fvals, model) -> bool:
+    return any(r == froot and all(vals.get(e) == v for e, v in fvals.items()) for r, vals in model)
+
+
+def _judge_lattice(ctx, tag, inside, model, rng, pool, *, previous=(), not_published=(), full=False, detail=None, suffix='', judge_positive=True):
+    """model: [(root, {element: value})] = the locations the provider has published (one per associated state and identification).
+    inside(root, values) -> True / False / None (None: the call raised; the caller recorded the witness).
+    previous: locations that were associated earlier, not_published: locations that are in the MDIB but not associated / not yet on the wire.
+    The expectation of EVERY question is computed from the whole model (a device with two locations is inside both)."""
+    def ask(root, vals, cls):
+        want = _encloses(root, vals, model)
+        got = inside(root, vals)
+        ctx.count(f'{tag}.checks.{cls}')
+        ctx.count(f'{tag}.expected_inside' if want else f'{tag}.expected_outside')
+        if got is None or got == want:
+            return
+        if want and not judge_positive:
+            ctx.count(f'{tag}.positive_not_judged')
+            return
+        if want:
+            key = 'not_inside_self' if any(r == root and v == vals for r, v in model) else 'not_inside_generalisation'
+            what = 'the published location scope is not recognised inside ' + ('its own location' if key == 'not_inside_self' else 'an enclosing location')
+        else:
+            key = {'differing_value': 'inside_differing_value', 'element_not_published': 'inside_element_not_published', 'root': 'inside_differing_root',
+                   'previous': 'inside_previous_location', 'not_published': 'inside_not_published_location'}.get(cls, 'inside_differing_value')
+            what = f'the device is reported inside a location that differs in a specified element from every location it published ({cls})'
+        ctx.witness(f'{tag}.{key}{suffix}', what, {**(detail or {}), 'published_locations': [{'root': r, **v} for r, v in model], 'filter': {'root': root, **vals}})
+
+    for root, vals in model:
+        masks = list(range(64)) if full else [63, 0] + [rng.randrange(64) for _ in range(5)]
+        seen = set()
+        for gmask in masks:
+            g = {e: vals[e] for i, e in enumerate(ELEMENTS) if gmask >> i & 1 and e in vals}
+            k = tuple(sorted(g))
+            if k in seen:
+                continue
+            seen.add(k)
+            ask(root, g, 'self' if g == vals else 'generalisation')
+        for i, e in enumerate(ELEMENTS):
+            if not full and rng.random() < 0.4:
+                continue
+            gmask = rng.randrange(64)
+            base = {x: vals[x] for j, x in enumerate(ELEMENTS) if x in vals and gmask >> j & 1 and x != e}
+            if e in vals:
+                alts, cls = urigen.different_values(rng, vals[e], pool), 'differing_value'
+                if not full:
+                    alts = rng.sample(alts, min(3, len(alts)))
+            else:
+                alts, cls = [urigen.pick_value(rng, pool), 'x'], 'element_not_published'
+            for alt in alts:
+                ask(root, {**base, e: alt}, cls)
+        for other_root in (root + 'x', 'other.root', root.upper(), DEFAULT_ROOT):
+            if other_root != root:
+                ask(other_root, dict(vals), 'root')
+    for root, vals in previous:
+        ask(root, dict(vals), 'previous')
+    for root, vals in not_published:
+        ask(root, dict(vals), 'not_published')
+
+
+class _XmlOnly:
+    """rng proxy: choice() from urigen.DIRECTED_VALUES never returns a string an XML document cannot carry"""
+
+    def __init__(self, rng):
+        self._rng = rng
+
+    def __getattr__(self, name):
+        return getattr(self._rng, name)
+
+    def choice(self, seq):
+        for _ in range(1000):
+            v = self._rng.choice(seq)
+            if not isinstance(v, str) or c16_wire.xml_ok(v):
+                return v
+        return 'x'
+
+
+def _validators(rng, pool, xml=False):
+    """what an application may pass as validators: they never are a location of the device."""
+    from sdc11073.xml_types import pm_types
+    if xml:
+        pool = [v for v in pool if c16_wire.xml_ok(v)] or ['x']
+        rng = _XmlOnly(rng)
+    other = _mk_loc({'fac': 'VALIDATOR', 'bed': urigen.pick_value(rng, pool)})
+    ext = '/'.join((getattr(other, e) or '') for e in ELEMENTS)
+    return rng.choice([None, None, [], [pm_types.InstanceIdentifier(root=DEFAULT_ROOT, extension_string=ext)],
+                       [pm_types.InstanceIdentifier(root='urn:oid:1.2.3'), pm_types.InstanceIdentifier(root=DEFAULT_ROOT, extension_string='x')],
+                       (pm_types.InstanceIdentifier(root='sdc.ctxt.loc', extension_string=urigen.pick_value(rng, pool)),)])
+
+
+def _scopes_inside(ctx, tag, scopes):
+    """inside(root, values) on one service publishing ``scopes`` (both entry points must agree)."""
+    from sdc11073.wsdiscovery.service import Service
+    svc = Service(None, scopes, ['http://10.0.0.1/x'], 'urn:uuid:dev', '1')
+
+    def inside(root, vals):
+        filt = _mk_loc(vals, root)
+        try:
+            res = filt.filter_services_inside([svc])
+            single = any(filt._scope_string_matches(t) for t in scopes.text)
+        except Exception as ex:  # noqa: BLE001
+            ctx.witness(f'{tag}.raises.' + _classify_raise(ex), f'location filter raised {type(ex).__name__}: {ex} on scopes published by mk_scopes',
+                        {'scopes': list(scopes.text), 'filter': {'root': root, **vals}})
+            return None
+        got = bool(res) and res[0] is svc
+        if got != single:
+            ctx.witness(f'{tag}.entry_points_disagree', '_scope_string_matches and filter_services_inside disagree',
+                        {'scopes': list(scopes.text), 'filter': {'root': root, **vals}})
+        return got
+    return inside
+
+
+VARIANT_KINDS = ['multi_mds', 'from_file', 'from_sdc_location', 'entity_new_state', 'detail_none', 'validators', 'from_file', 'multi_mds']
+ROOTS_FILE = [DEFAULT_ROOT, DEFAULT_ROOT, 'root', 'urn:oid:1.2.840.10004', 'biceps.uri.unk', 'http://example.com/loc', 'a/b', 'urn:x/y/z', 'a%2Fb', 'a?b', 'a#b',
+              'a&b=c', 'sdc.ctxt.loc', 'a;b', 'a+b', 'ä中\U0001F600', 'x' * 300, '1.2.3', None, None]
+
+
+DIRECTED_FILE_ROOTS = ['http://example.com/loc', None, 'a/b', 'urn:oid:1.2.840.10004', 'a%2Fb', 'urn:x/y/z', 'a?b', 'ä中\U0001F600', 'a#b', 'sdc.ctxt.loc']
+
+
+def _loc_scope_count(ctx, tag, scopes, n_expected, detail):
+    n = sum(1 for s in scopes.text if s.lower().startswith('sdc.ctxt.loc:'))
+    ctx.count(f'{tag}.scope_count_checks')
+    if n != n_expected:
+        ctx.witness(f'{tag}.location_scope_count', f'{n} sdc.ctxt.loc scopes published for {n_expected} associated location(s)',
+                    {**detail, 'scopes': list(scopes.text)})
+        return False
+    return True
+
+
+def _variant_case(ctx, kind, rng, pool, xpool, case):
+    from sdc11073.exceptions import ValidationError
+    from sdc11073.provider.scopesfactory import mk_scopes
+    tag = 'variant'
+    sfx = '.' + kind
+    if kind in ('multi_mds', 'validators'):
+        n_mds = 1 if kind == 'validators' else 2 + (case // len(VARIANT_KINDS)) % 2
+        mdib = c16_wire.mk_mdib(n_mds)
+        handles = [f'lc{i}' for i in range(n_mds)]
+        model, previous = {}, []
+        plan = (['lc0', 'lc1', 'lc0', 'lc1'] if n_mds > 1 else ['lc0', 'lc0']) + [rng.choice(handles) for _ in range(rng.randrange(0, 3))]
+        for step, h in enumerate(plan):
+            values, mask = _random_values(rng, pool, rng.choice([63, rng.randrange(1, 64), rng.randrange(1, 64)]))
+            validators = _validators(rng, pool)
+            with_handle = n_mds > 1 or rng.random() < 0.5
+            mdib.xtra.set_location(_mk_loc(values), validators, location_context_descriptor_handle=h if with_handle else None)
+            ctx.count(f'variant.set_location.{"with" if with_handle else "without"}_handle')
+            ctx.count('variant.set_location.validators_' + ('default' if validators is None else str(len(validators))))
+            if h in model:
+                previous.append((DEFAULT_ROOT, model[h]))
+            model[h] = values
+            scopes = mk_scopes(mdib)
+            detail = {'kind': kind, 'step': step, 'descriptor': h, 'n_mds': n_mds}
+            _loc_scope_count(ctx, tag, scopes, len(model), detail)
+            last = step == len(plan) - 1
+            _judge_lattice(ctx, tag, _scopes_inside(ctx, tag, scopes), [(DEFAULT_ROOT, v) for v in model.values()], rng, pool,
+                           previous=previous[-4:], full=last and case % 3 == 0, detail=detail, suffix=sfx)
+        ctx.case(('variant', kind, n_mds, len(plan)))
+        if n_mds > 1:
+            ctx.count('variant.multi_mds_worlds')
+        return
+    if kind == 'from_file':
+        n_mds = rng.choice([1, 1, 2])
+        states, model, not_assoc = [], [], []
+        written, written_roots = {}, {}
+        for i in range(n_mds):
+            for j in range(rng.choice([1, 1, 2, 3])):
+                assoc = 'Assoc' if j == 0 else rng.choice(['Dis', 'No', 'Pre', 'Dis'])
+                mask = 0 if case % 16 == 1 and j == 0 else rng.choice([63, rng.randrange(64), rng.randrange(1, 64)])
+                values = {e: rng.choice(xpool) if rng.random() < 0.8 else rng.choice(['HOSP1', 'a b', 'x/y', '50%25', 'a+b', ' lead', 'trail ', 'a\tb', 'l\nf'])
+                          for k, e in enumerate(ELEMENTS) if mask >> k & 1}
+                idents = []
+                k = case // len(VARIANT_KINDS) * 2 + (case % len(VARIANT_KINDS) > 1)  # number of this from_file case inside the job
+                for n_ident in range(rng.choice([1, 1, 2, 3])):
+                    root = rng.choice(ROOTS_FILE) if rng.random() < 0.8 else rng.choice(xpool)
+                    if i == 0 and j == 0 and n_ident == 0 and k < len(DIRECTED_FILE_ROOTS):
+                        root = DIRECTED_FILE_ROOTS[k]  # directed: always executed
+                    ext = rng.choice([None, 'ext', 'a/b/c', 'HOSP1///CU1//Bed42', rng.choice(xpool)])
+                    idents.append((root, ext))
+                hdl = f'st{i}_{j}'
+                states.append({'descriptor': f'lc{i}', 'handle': hdl, 'assoc': assoc, 'idents': idents, 'detail': values,
+                               'validators': [('v', 'w')] if rng.random() < 0.3 else []})
+                written[hdl] = values
+                written_roots[hdl] = [r for r, _ in idents]
+                for root, _ in idents:
+                    (model if assoc == 'Assoc' else not_assoc).append((root if root is not None else 'biceps.uri.unk', values))
+        try:
+            mdib = c16_wire.mk_mdib(n_mds, states)
+        except ValidationError:
+            ctx.count('variant.from_file.refused_by_schema')  # e.g. a root that libxml2 does not accept as xs:anyURI
+            return
+        for st in mdib.context_states.objects:  # the XML reader is not this property's business: judge only what arrived unchanged
+            got = {e: getattr(st.LocationDetail, c16_wire.DETAIL_ATTR[e]) for e in ELEMENTS} if st.LocationDetail is not None else {}
+            roots = [ident.Root for ident in st.Identification]
+            if {e: v for e, v in got.items() if v is not None} != written[st.Handle] or roots != written_roots[st.Handle]:
+                ctx.count('variant.from_file.value_changed_by_reader')
+                return
+        scopes = mk_scopes(mdib)
+        ctx.count('variant.from_file.loaded')
+        ctx.count('variant.from_file.identifications', len(model))
+        ctx.count('variant.from_file.custom_roots', sum(1 for r, _ in model if r != DEFAULT_ROOT))
+        detail = {'kind': kind, 'states': states}
+        # the statement speaks about the scopes the provider publishes, not about how many: "inside" is owed for every identification only
+        # if every identification of an associated state got its scope (the library does that: one scope per identification)
+        n_loc = sum(1 for t in scopes.text if t.lower().startswith('sdc.ctxt.loc:'))
+        if n_loc != len(model):
+            ctx.count('variant.from_file.scope_count_differs')
+        _judge_lattice(ctx, tag, _scopes_inside(ctx, tag, scopes), model, rng, pool, not_published=not_assoc[:4], full=case % 4 == 0, detail=detail, suffix=sfx,
+                       judge_positive=n_loc == len(model))
+        ctx.case(('variant', kind, n_mds, len(states), tuple(sorted({urigen.coarse_classes(r) for r, _ in model}))))
+        if case in (1, 9):
+            ctx.sample({'kind': 'location states of the MDIB file', 'states': states, 'published_scopes': list(scopes.text)})
+        return
+    # one MDS; the associated state is created without set_location
+    n_mds = rng.choice([1, 2])
+    mdib = c16_wire.mk_mdib(n_mds)
+    h = f'lc{n_mds - 1}'
+    values, _ = _random_values(rng, pool, rng.choice([63, rng.randrange(1, 64)]))
+    values2, _ = _random_values(rng, pool, rng.randrange(1, 64))
+    detail = {'kind': kind}
+    if kind == 'from_sdc_location':
+        from sdc11073.mdib.statecontainers import LocationContextStateContainer
+        descr = mdib.descriptions.handle.get_one(h)
+        st = LocationContextStateContainer.from_sdc_location(descr, 'loc_state_1', _mk_loc(values))
+        with mdib.context_state_transaction() as mgr:
+            mgr.add_state(st)
+        scopes = mk_scopes(mdib)
+        _loc_scope_count(ctx, tag, scopes, 1, detail)
+        _judge_lattice(ctx, tag, _scopes_inside(ctx, tag, scopes), [(DEFAULT_ROOT, values)], rng, pool, detail=detail, suffix=sfx)
+        st2 = LocationContextStateContainer.from_sdc_location(descr, 'loc_state_2', _mk_loc(values2))
+        with mdib.context_state_transaction() as mgr:
+            mgr.disassociate_all(h)
+            mgr.add_state(st2)
+    elif kind == 'entity_new_state':
+        ent = mdib.entities.by_handle(h)
+        st = ent.new_state()
+        st.update_from_sdc_location(_mk_loc(values))
+        with mdib.context_state_transaction() as mgr:
+            mgr.write_entity(ent, [st.Handle])
+        scopes = mk_scopes(mdib)
+        _loc_scope_count(ctx, tag, scopes, 1, detail)
+        _judge_lattice(ctx, tag, _scopes_inside(ctx, tag, scopes), [(DEFAULT_ROOT, values)], rng, pool, detail=detail, suffix=sfx)
+        ent = mdib.entities.by_handle(h)
+        ent.states[st.Handle].update_from_sdc_location(_mk_loc(values2))
+        with mdib.context_state_transaction() as mgr:
+            mgr.write_entity(ent, [st.Handle])
+    else:  # detail_none: the application removed LocationDetail (allowed: it is optional), then the location is set again on the same state
+        mdib.xtra.set_location(_mk_loc(values), location_context_descriptor_handle=h)
+        cur = [s for s in mdib.context_states.objects if s.ContextAssociation == 'Assoc'][0]
+        with mdib.context_state_transaction() as mgr:
+            mgr.get_context_state(cur.Handle).LocationDetail = None
+        try:
+            mk_scopes(mdib)
+            ctx.count('variant.detail_none.published_without_detail')
+        except ValueError:
+            ctx.count('variant.detail_none.refused_by_mk_scopes')  # documented behaviour of mk_scopes, not judged
+        with mdib.context_state_transaction() as mgr:
+            mgr.get_context_state(cur.Handle).update_from_sdc_location(_mk_loc(values2))
+    scopes = mk_scopes(mdib)
+    _loc_scope_count(ctx, tag, scopes, 1, detail)
+    _judge_lattice(ctx, tag, _scopes_inside(ctx, tag, scopes), [(DEFAULT_ROOT, values2)], rng, pool, previous=[(DEFAULT_ROOT, values)],
+                   full=case % 3 == 0, detail=detail, suffix=sfx)
+    ctx.case(('variant', kind, n_mds, urigen.coarse_classes(''.join(values2.values()))))
+
+
+def w_variants(ctx: core.Ctx, arg):
+    warnings.simplefilter('ignore')
+    import logging
+    logging.disable(logging.CRITICAL)
+    rng = ctx.rng('variants', arg['i'])
+    pool = urigen.hyp_text_pool(arg['pool'], ctx.seed * 1000 + 400 + arg['i'], max_size=30)
+    xpool = [v for v in pool if c16_wire.xml_ok(v)] or ['x']
+    for case in range(arg['n']):
+        kind = VARIANT_KINDS[case % len(VARIANT_KINDS)]
+        ctx.count(f'variant.cases.{kind}')
+        try:
+            _variant_case(ctx, kind, rng, pool, xpool, case)
+        except Exception as ex:  # noqa: BLE001
+            ctx.witness(f'variant.raises.{kind}', f'associating / publishing a location raised {type(ex).__name__}: {ex}',
+                        {'kind': kind, 'raised_in': _innermost(ex), 'trace': traceback.format_exc()[-1200:]})
+
+
+# =============================================================================================
+# E  the wire: SdcProvider -> WS-Discovery -> consumer-side filter
+# =============================================================================================
+WIRE_PRELUDE = ['set', 'set', 'foreign', 'inplace', 'set_nopublish', 'publish', 'clear', 'set_other', 'entity_inplace', 'foreign', 'disassociate', 'set']
+
+
+def _wire_foreign(ctx, world, rng, pool):
+    """devices of other vendors announce themselves to the consumer: Hello / ProbeMatches with whatever scopes survive an XML document."""
+    n_before = world.wire.delivered
+    for _ in range(rng.choice([1, 2, 4])):
+        scopes = []
+        for _ in range(rng.choice([0, 1, 1, 2, 3, 6])):
+            s = urigen.foreign_scope(rng, pool)[0]
+            if rng.random() < 0.5:
+                s = ''.join(ch for ch in s if c16_wire.xml_ok(ch))  # otherwise the datagram is not XML at all
+            scopes.append(s)
+        if rng.random() < 0.3:  # looks like a neighbour: a location scope built by this library, next to unusual ones
+            scopes.insert(rng.randrange(len(scopes) + 1), _mk_loc(_random_values(rng, pool)[0]).scope_string)
+        data = c16_wire.raw_hello(rng, f'urn:uuid:foreign-{rng.randrange(12)}', None if rng.random() < 0.1 else scopes, types=rng.random() < 0.9,
+                                  version=rng.choice([1, 1, 2, 5]), instance_id=rng.randrange(1, 1000), kind=rng.choice(['Hello', 'Hello', 'ProbeMatches']),
+                                  match_by=rng.choice([None, None, None, 'http://docs.oasis-open.org/ws-dd/ns/discovery/2009/01/strcmp0', 'urn:x']))
+        ctx.count('wire.foreign.datagrams')
+        try:
+            world.wire.inject(data, f'10.0.1.{rng.randrange(2, 250)}', world.cnode)
+        except UnicodeEncodeError:
+            ctx.count('wire.foreign.not_encodable')
+    ctx.count('wire.foreign.delivered', world.wire.delivered - n_before)
+
+
+def _wire_inside(ctx, world, rng, access_log):
+    """inside(root, values) for the provider of ``world`` as seen by the consumer node."""
+    cw = world.cnode.wsd
+    state = {'n': 0}
+
+    def inside(root, vals):
+        filt = _mk_loc(vals, root)
+        state['n'] += 1
+        path = rng.choice(['search', 'table', 'table', 'generator']) if state['n'] <= 6 else 'table'
+        try:
+            if path == 'search':  # the real API: Probe, wait (the clock delivers the ProbeMatches), filter the table
+                found = cw.search_sdc_device_services_in_location(filt, timeout=rng.choice([1, 3, 4]))
+            elif path == 'table':
+                found = filt.filter_services_inside(cw.get_found_remote_services())
+            else:
+                found = filt.filter_services_inside(s for s in list(cw._remote_services.values()))
+        except Exception as ex:  # noqa: BLE001
+            ctx.witness('wire.raises.' + _classify_raise(ex), f'filtering the discovered services raised {type(ex).__name__}: {ex}',
+                        {'path': path, 'filter': {'root': root, **vals}, 'raised_in': _innermost(ex),
+                         'scopes_in_table': [list(s.scopes.text)[:6] if s.scopes is not None else None for s in cw._remote_services.values()][:8]})
+            return None
+        ctx.count(f'wire.filter_calls.{path}')
+        access_log.append(path)
+        return any(s.epr == world.epr for s in found)
+    return inside
+
+
+def _wire_world(ctx, rng, pool, wi, steps):
+    from sdc11073.xml_types import pm_types
+    n_mds = [1, 2, 3, 1][wi] if wi < 4 else rng.choice([1, 1, 2, 3])
+    world = c16_wire.WireWorld(n_mds)
+    ctx.count('wire.worlds')
+    ctx.count(f'wire.worlds.mds_{n_mds}')
+    last_passed = None  # what SdcProvider.set_location got last (it ignores a call with an equal location)
+    previous = []
+    try:
+        for step in range(steps):
+            op = WIRE_PRELUDE[step] if step < len(WIRE_PRELUDE) else rng.choice(WIRE_PRELUDE + ['set', 'set', 'inplace'])
+            assoc = [h for h in world.handles if h in world.mdib_model]
+            if op in ('inplace', 'entity_inplace', 'disassociate') and not assoc:
+                op = 'set'
+            if op == 'set_other' and n_mds == 1:
+                op = 'set'
+            detail = {'step': step, 'op': op, 'n_mds': n_mds}
+            if op in ('set', 'set_nopublish', 'set_other'):
+                h = rng.choice(world.handles)
+                if op == 'set_other':
+                    h = rng.choice([x for x in world.handles if x not in world.mdib_model] or world.handles)
+                while True:
+                    values, _ = _random_values_xml(rng, pool, rng.choice([63, rng.randrange(1, 64), rng.randrange(1, 64)]))
+                    if values != last_passed:
+                        break
+                last_passed = values
+                kw = {}
+                if n_mds > 1 or rng.random() < 0.4:
+                    kw['location_context_descriptor_handle'] = h
+                else:
+                    h = world.handles[0]
+                if rng.random() < 0.6:
+                    kw['validators'] = _validators(rng, pool, xml=True)
+                if op == 'set_nopublish':
+                    kw['publish_now'] = False
+                world.provider.set_location(_mk_loc(values), **kw)
+                if h in world.mdib_model:
+                    previous.append((DEFAULT_ROOT, world.mdib_model[h]))
+                world.mdib_model[h] = values
+                world.history.append(values)
+                detail['descriptor'] = h
+                if op != 'set_nopublish':
+                    world.published()
+            elif op in ('inplace', 'entity_inplace'):
+                h = rng.choice(assoc)
+                values, _ = _random_values_xml(rng, pool, rng.randrange(1, 64))
+                cur = [s for s in world.mdib.context_states.objects if s.DescriptorHandle == h and s.ContextAssociation == 'Assoc'][0]
+                if op == 'inplace':
+                    with world.mdib.context_state_transaction() as mgr:
+                        mgr.get_context_state(cur.Handle).update_from_sdc_location(_mk_loc(values))
+                else:
+                    ent = world.mdib.entities.by_handle(h)
+                    ent.states[cur.Handle].update_from_sdc_location(_mk_loc(values))
+                    with world.mdib.context_state_transaction() as mgr:
+                        mgr.write_entity(ent, [cur.Handle])
+                previous.append((DEFAULT_ROOT, world.mdib_model[h]))
+                world.mdib_model[h] = values
+                world.provider.publish()
+                world.published()
+            elif op == 'disassociate':
+                h = rng.choice(assoc)
+                cur = [s for s in world.mdib.context_states.objects if s.DescriptorHandle == h and s.ContextAssociation == 'Assoc'][0]
+                with world.mdib.context_state_transaction() as mgr:
+                    mgr.get_context_state(cur.Handle).ContextAssociation = pm_types.ContextAssociation.DISASSOCIATED
+                previous.append((DEFAULT_ROOT, world.mdib_model.pop(h)))
+                world.provider.publish()
+                world.published()
+            elif op == 'publish':
+                world.provider.publish()
+                world.published()
+            elif op == 'foreign':
+                _wire_foreign(ctx, world, rng, pool)
+            elif op == 'clear':  # the consumer forgets everything: only the answers to its next Probe fill the table again
+                world.cnode.wsd.clear_remote_services()
+                world.cnode.wsd.search_sdc_services(timeout=1)
+            ctx.count(f'wire.steps.{op}')
+            # --- the datagram itself: one location scope per associated location
+            if op not in ('foreign', 'clear', 'set_nopublish'):
+                texts = world.last_hello_scopes() or []
+                n = sum(1 for t in texts if t.lower().startswith('sdc.ctxt.loc:'))
+                ctx.count('wire.hello_scope_count_checks')
+                if n != len(world.pub_model or {}):
+                    ctx.witness('wire.location_scope_count', f'the Hello carries {n} sdc.ctxt.loc scopes for {len(world.pub_model or {})} associated location(s)',
+                                {**detail, 'scopes': texts})
+            # --- the consumer's view
+            pub = [(DEFAULT_ROOT, v) for v in (world.pub_model or {}).values()]
+            unpublished = [(DEFAULT_ROOT, v) for h, v in world.mdib_model.items() if (world.pub_model or {}).get(h) != v]
+            if world.pub_model is not None and op not in ('foreign', 'clear', 'set_nopublish'):
+                # did the announcement arrive?  The consumer's table entry must carry the scopes of the provider's last Hello; if it does not,
+                # that is reported once under its own mechanism key and the consumer asks again (Probe), so that the location logic is judged
+                # on a table that is up to date
+                ctx.count('wire.hello_applied_checks')
+                entry = world.cnode.wsd._remote_services.get(world.epr)
+                have = sorted(entry.scopes.text) if entry is not None and entry.scopes is not None else None
+                if have != sorted(world.last_hello_scopes() or []):
+                    ctx.witness('wire.hello_not_applied', 'after the provider announced a changed location (Hello), the consumer-side WSDiscovery still '
+                                'holds the scopes of an earlier announcement: the device is searched for in the wrong location',
+                                {**detail, 'table_entry_version': getattr(entry, 'metadata_version', None), 'table_entry_scopes': have,
+                                 'hello_scopes': world.last_hello_scopes(),
+                                 'provider_side_version': world.pnode.wsd._local_services[world.epr].metadata_version})
+                    world.cnode.wsd.clear_remote_services()
+                    world.cnode.wsd.search_sdc_services(timeout=1)
+                    ctx.count('wire.resynchronised_by_probe')
+            if world.pub_model is not None and world.epr not in world.cnode.wsd._remote_services:
+                ctx.witness('wire.provider_not_discovered', 'the consumer-side WSDiscovery does not know the provider although its Hello / ProbeMatches '
+                            'were delivered', detail)
+                continue
+            access = []
+            _judge_lattice(ctx, 'wire', _wire_inside(ctx, world, rng, access), pub, rng, pool, previous=previous[-3:], not_published=unpublished,
+                           detail=detail)
+            if len(pub) > 1:
+                ctx.count('wire.checks_with_several_locations')
+            if unpublished:
+                ctx.count('wire.checks_with_unpublished_location')
+            ctx.case(('wire', n_mds, op, len(pub), bool(unpublished), len(world.cnode.wsd._remote_services) > 1))
+            if wi == 1 and step == 1:
+                ctx.sample({'kind': 'wire', 'associated': world.mdib_model, 'hello_scopes': world.last_hello_scopes(),
+                            'datagrams': [(s, a) for s, a, _ in world.wire.log]})
+        for kind, ex in world.wire.handler_errors:
+            ctx.count('wire.datagram_handler_raised')  # not this property (C14/C15): kept visible
+        ctx.count('wire.datagrams', len(world.wire.log))
+        ctx.count('wire.datagrams_dropped_by_reader', world.wire.dropped)
+    finally:
+        world.stop()
+
+
+def w_wire(ctx: core.Ctx, arg):
+    warnings.simplefilter('ignore')
+    import logging
+    logging.disable(logging.CRITICAL)
+    rng = ctx.rng('wire', arg['i'])
+    pool = urigen.hyp_text_pool(arg['pool'], ctx.seed * 1000 + 600 + arg['i'], max_size=30)
+    for wi in range(arg['worlds']):
+        try:
+            _wire_world(ctx, rng, pool, wi, arg['steps'])
+        except Exception as ex:  # noqa: BLE001
+            ctx.witness('wire.raises.harness_or_provider', f'set_location / publish / discovery raised {type(ex).__name__}: {ex}',
+                        {'raised_in': _innermost(ex), 'trace': traceback.format_exc()[-1500:]})
+    if arg['i'] == 0:
+        _observations(ctx)
+
+
+def _observations(ctx):
+    """behaviour that is recorded, not judged (outside the reading of the statement this check uses - see assumptions)."""
+    from sdc11073.provider.scopesfactory import mk_scopes
+    from sdc11073.wsdiscovery.service import Service
+    obs = []
+    mdib = c16_wire.mk_mdib(1)
+    loc = _mk_loc({'fac': 'HOSP1', 'bed': 'Bed42'}, 'my.root')
+    mdib.xtra.set_location(loc)
+    svc = Service(None, mk_scopes(mdib), [], 'urn:uuid:dev', '1')
+    if not loc.filter_services_inside([svc]):
+        obs.append('a location with a non-default root is published under the root sdc.ctxt.loc.detail: the device is not inside the SdcLocation it was given')
+        ctx.count('observe.custom_root_not_inside_own_location')
+    with warnings.catch_warnings():
+        warnings.simplefilter('error')
+        try:
+            _mk_loc({'fac': 'HOSP1'}).filter_services_inside([svc])
+        except Warning as ex:
+            obs.append(f'with warnings turned into errors filter_services_inside raises {type(ex).__name__} for every well-formed location scope '
+                       '(SdcLocation.__contains__ reads its own deprecated property root)')
+            ctx.count('observe.filter_raises_under_warnings_as_errors')
+    warnings.simplefilter('ignore')
+    try:  # SdcProvider.set_location ignores a call whose location equals the previous one - also when it names another descriptor
+        world = c16_wire.WireWorld(2)
+        try:
+            world.provider.set_location(_mk_loc({'fac': 'HOSP1'}), location_context_descriptor_handle='lc0')
+            world.provider.set_location(_mk_loc({'fac': 'HOSP1'}), location_context_descriptor_handle='lc1')
+            if not [st for st in world.mdib.context_states.objects if st.DescriptorHandle == 'lc1']:
+                obs.append('SdcProvider.set_location(loc, location_context_descriptor_handle=lc1) is ignored when loc equals the location set before on lc0: '
+                           'the second MDS gets no location')
+                ctx.count('observe.set_location_same_location_other_descriptor_ignored')
+        finally:
+            world.stop()
+    except Exception as ex:  # noqa: BLE001
+        obs.append(f'observation run raised {type(ex).__name__}: {ex}')
+    ctx.extra['observations'] = obs
+
+
 def run(ctx: core.Ctx):
     ctx.rule = ('A: one case = one location (present/absent mask x element values x root) whose scope string is parsed back; B: one case = one location '
                 'set on a real ProviderMdib, the published sdc.ctxt.loc scope filtered by all 64 generalisations and by locations differing in one element; '
-                'C: one case = one foreign scope string (or the scope list of one generated MDIB) handed to the location filter.  distinct = shape '
+                'C: one case = one foreign scope string (or the scope list of one generated MDIB, or one shape of service list) handed to the location filter; '
+                'D: one case = one MDIB whose location(s) were associated in one of the other ways (several MDS, file, from_sdc_location, entity, validators), judged '
+                'as inside(F) <=> F encloses a published location; E: one case = one step of a real SdcProvider + two real WSDiscovery nodes (set_location / in-place update / '
+                'publish / disassociate / foreign announcements / consumer restart) followed by the same equivalence asked through the consumer node.  distinct = shape '
                 '(mask, set of character classes occurring in the values, root kind / scheme, authority, number of segments, query and fragment class); non-trivial = every case')
     q = ctx.quick
     jobs = []
@@ -424,6 +1045,10 @@ def run(ctx: core.Ctx):
         jobs.append(['w_foreign', {'i': i, 'n': 1250 if q else 31250, 'pool': 300 if q else 1500}])
     for i in range(4 if q else 16):
         jobs.append(['w_own_scopes', {'i': i, 'n': 50 if q else 1000, 'pool': 100 if q else 1000}])
+    for i in range(6 if q else 32):
+        jobs.append(['w_variants', {'i': i, 'n': 48 if q else 480, 'pool': 200 if q else 1000}])
+    for i in range(6 if q else 32):
+        jobs.append(['w_wire', {'i': i, 'worlds': 4 if q else 16, 'steps': 14 if q else 24, 'pool': 200 if q else 1000}])
     core.fanout(ctx, MODULE, 'dispatch', jobs)
     ctx.floor('roundtrip.identical', 2000)
     ctx.floor('roundtrip.identical.non_ascii', 200)
@@ -434,13 +1059,40 @@ def run(ctx: core.Ctx):
     ctx.floor('filter.scope_strings', 5000)
     ctx.floor('filter.answer.outside', 1000)
     ctx.floor('own.scopes', 300)
+    ctx.floor('contain.published_parsed', 500)
+    ctx.floor('roundtrip.after_attribute_change', 300)
+    ctx.floor('filter.service_shapes', 30)
+    ctx.floor('variant.expected_inside', 2000)
+    ctx.floor('variant.expected_outside', 4000)
+    ctx.floor('variant.multi_mds_worlds', 30)
+    ctx.floor('variant.from_file.loaded', 20)
+    ctx.floor('variant.from_file.custom_roots', 20)
+    ctx.floor('variant.checks.previous', 100)
+    ctx.floor('variant.scope_count_checks', 200)
+    ctx.floor('wire.worlds', 12)
+    ctx.floor('wire.expected_inside', 500)
+    ctx.floor('wire.expected_outside', 1500)
+    ctx.floor('wire.filter_calls.search', 100)
+    ctx.floor('wire.checks_with_several_locations', 10)
+    ctx.floor('wire.checks_with_unpublished_location', 6)
+    ctx.floor('wire.checks.previous', 100)
+    ctx.floor('wire.hello_applied_checks', 60)
+    ctx.floor('wire.foreign.delivered', 10)
     ctx.assumptions += [
         'element values are non-empty strings of Unicode scalar values (an empty string cannot be told from "absent" in the query form and is treated as absent; '
         'lone surrogates cannot be UTF-8 encoded)',
         'the root of a location counts as part of "the same location" (SdcLocation.__eq__ includes it); non-default roots are reported under their own keys',
         '"differs in a specified element" is read as: the filter location specifies element e = v and the published location has e != v (or does not publish e)',
-        'the MDIB is a minimal generated one (one MDS, all six context descriptors); set_location requires at least one element, so the all-absent location is '
-        'only part of the round-trip monitor',
+        'the MDIB is a minimal generated one (B: one MDS, D/E: one to three MDS with one location context descriptor each); set_location requires at least one '
+        'element, so the all-absent location is only part of the round-trip monitor and of the states read from an MDIB file',
+        'D: for a location state with application-chosen identifications the location is (root of the identification - biceps.uri.unk if absent -, LocationDetail); '
+        'roots / values of an MDIB file are limited to what the schema validation of ProviderMdib.from_string accepts and what the XML reader returns unchanged',
+        'E: element values are limited to characters an XML document can carry (a running provider reports its context states as XML); a location given to '
+        'SdcProvider.set_location always differs from the one given before (an equal one is documented to be ignored); what the consumer must see is what the '
+        'provider announced last (publish_now=False: the earlier location); foreign announcements reach the consumer only if the datagram passes the schema '
+        'validation of the receive loop (counted)',
+        'recorded, not judged (ctx.extra observations): a SdcLocation with a non-default root is published under sdc.ctxt.loc.detail; the filter under '
+        'warnings-as-errors',
     ]
 
 
